@@ -1,4 +1,5 @@
 import XcpProofs.Perm
+import XcpProofs.L0Fs
 import XcpProofs.PoolInv
 import XcpProofs.ParfileInv
 import XcpProps.C01
@@ -26,10 +27,20 @@ count / queue capacity:
   theorem): the state at one target after the run does not depend on when operations on other targets ran;
 * the update totals and the exit status of failure-free runs are the same for every schedule (C12, C07).
 
-What is NOT proved: the bridge from the real thread structure to "the effect log of a complete execution is a
-constrained permutation of the sequential one" as a single refinement theorem L0 ⇒ L1 over the file-system
-model; it is checked on every real trace instead (per-target call order by the monitor, mkdir-before-children
-and equality of end states across schedules, worker counts and drivers).  Two recorded findings show where the
+* REFINEMENT L0 ⇒ L1 (`any_interleaving_ends_like_the_sequential_run`): in the concurrent model `Xcp.L0` over the
+  namespace model — the walker executes directory creations itself in walk order and hands every other operation
+  to the workers, ANY queued operation may complete next, the walker may run ahead arbitrarily (this covers
+  every interleaving, worker count and both drivers) — every complete failure-free run ends in the state of the
+  sequential execution `L1`, up to the order of directory entries (`FsEq`: same observation at every path), for
+  operation lists that are pairwise independent (`PairIndep`: targets names-only and unrelated or an ancestor
+  `mkdir`, nobody writes into another's source) — provided each queued operation is `GoodAll` when handed over
+  (plain target with existing parent directory, plain existing source, no symbolic link above any target).
+
+What is NOT proved: that the walker of a real tree establishes `GoodAll` at every hand-over (it follows from
+"mkdir first in its subtree" and the frame theorems for link-free destinations, but the induction over the tree
+is not done), and the bridge from the real thread structure to `Xcp.L0` (transcribed from the source); both
+are checked on every real run instead (per-target call order by the monitor, mkdir-before-children and
+equality of end states across schedules, worker counts and drivers, and against `L1run`).  Two recorded findings show where the
 statement itself fails on the unchanged code: two sources mapping onto one target (F10) and the partial state
 of FAILING runs (F14); they are reproduced by the check and printed as KNOWN-FINDING.  -/
 namespace Xcp.C06
@@ -92,6 +103,33 @@ theorem unrelated_targets_do_not_interfere (fs fs' : Fs) (c : Cfg) (op : Op) (t 
     (hp : PlainTarget fs t) (h : execOp fs c op = some fs') :
     ∀ q, ¬ (t.names <+: q) → ¬ (q <+: t.names) → fs'.root.getAt q = fs.root.getAt q :=
   C03.plain_op_frame fs fs' c op t ht hp h
+
+/-- REFINEMENT: every complete, failure-free concurrent execution — any interleaving of the walker with the
+completions of queued operations, hence any worker count and either driver — ends in the file system of the
+sequential execution (same observation at every path; only the order of directory entries may differ) -/
+theorem any_interleaving_ends_like_the_sequential_run (c : Cfg) (fs0 : Fs) (ops : List Op)
+    (h0 : FsEq fs0 fs0) (hnd : ops.Nodup) (hI : L0.PairIndep ops)
+    (hand : ∀ (ls : List L0.Label) (s : L0.St) (op : Op) (r : List Op), L0.run c (L0.init fs0 ops) ls = some s →
+              s.failed = false → s.todo = op :: r → L0.isSync op = false → L0.GoodAll ops s.fs op)
+    (ls : List L0.Label) (s : L0.St) (hrun : L0.run c (L0.init fs0 ops) ls = some s)
+    (hfin : L0.final s = true) (hok : s.failed = false) :
+    ∃ f, L0.seqExec c (some fs0) ops = some f ∧ FsEq f s.fs :=
+  L0.fs_run_refines_sequential c fs0 ops h0 hnd hI hand ls s hrun hfin hok
+
+/-- … in particular two schedules of the same operations end in the same file system (up to entry order) -/
+theorem two_interleavings_agree (c : Cfg) (fs0 : Fs) (ops : List Op)
+    (h0 : FsEq fs0 fs0) (hnd : ops.Nodup) (hI : L0.PairIndep ops)
+    (hand : ∀ (ls : List L0.Label) (s : L0.St) (op : Op) (r : List Op), L0.run c (L0.init fs0 ops) ls = some s →
+              s.failed = false → s.todo = op :: r → L0.isSync op = false → L0.GoodAll ops s.fs op)
+    (l1 l2 : List L0.Label) (s1 s2 : L0.St)
+    (r1 : L0.run c (L0.init fs0 ops) l1 = some s1) (r2 : L0.run c (L0.init fs0 ops) l2 = some s2)
+    (f1 : L0.final s1 = true) (f2 : L0.final s2 = true) (k1 : s1.failed = false) (k2 : s2.failed = false) :
+    FsEq s1.fs s2.fs := by
+  obtain ⟨a, ha, ea⟩ := L0.fs_run_refines_sequential c fs0 ops h0 hnd hI hand l1 s1 r1 f1 k1
+  obtain ⟨b, hb, eb⟩ := L0.fs_run_refines_sequential c fs0 ops h0 hnd hI hand l2 s2 r2 f2 k2
+  rw [ha] at hb
+  cases hb
+  exact (L0.fs_commutes c ops).trans _ _ _ ((L0.fs_commutes c ops).symm _ _ ea) eb
 
 /-- the totals of the update stream of a failure-free run are the same on every schedule -/
 theorem update_totals_schedule_independent (files : List Nat) (s1 s2 : Status.St)
